@@ -110,9 +110,11 @@ Inductive label :=
 | LBootReject | LBootCrash | LBootCreate (sid : nat) (c : config)
 | LProbeOk | LProbeErr | LProbeCancelled | LProbeTimeout | LCleanupCall (sid : nat)
 | LBindOk (sid : nat) | LBindFail (sid : nat) | LPushErr (sid : nat) | LLasClosed (sid : nat)
+| LServeSkip (sid : nat)
 | LForeignBind (a : str) | LForeignFree (a : str)
 | LObsState (f : fsm) | LObsDial (a : str) (b : bool)
 | LObsServe (a : str) (tbl : list (str * option str))
+| LObsCensus (n : nat)
 | LQuiesce.
 
 Inductive event :=
@@ -126,6 +128,7 @@ Inductive event :=
 | ELasFail (sid : nat) | ELasClosed (sid : nat)
 | EForeignBind (a : str) | EForeignFree (a : str)
 | EState (f : fsm) | EDial (a : str) (b : bool) | EServe (a : str) (tbl : list (str * option str))
+| ECensus (n : nat)
 | EQuiesce.
 
 Definition obs (l : label) : option event :=
@@ -150,6 +153,7 @@ Definition obs (l : label) : option event :=
   | LObsState f => Some (EState f)
   | LObsDial a b => Some (EDial a b)
   | LObsServe a t => Some (EServe a t)
+  | LObsCensus n => Some (ECensus n)
   | LQuiesce => Some EQuiesce
   | _ => None
   end.
@@ -207,6 +211,12 @@ Definition ostr_eqb (a b : option str) : bool :=
   match a, b with None, None => true | Some x, Some y => str_eqb x y | _, _ => false end.
 
 Definition ctx_cancelled (s : state) : bool := cancelled s || run_cancelled s.
+
+(* C18: the goroutines the runner creates on its own behalf are the serve goroutines started by boot()
+   ("go func() { server.ListenAndServe() ... }()"): one per server ever created, alive until ListenAndServe has
+   returned and (after a bind failure) its error has been sent.  Run, Reload and stopServer start nothing else. *)
+Definition serve_alive (x : srv) : bool := negb (sv_pc_eqb (s_pc x) SvExited).
+Definition census (s : state) : nat := length (filter serve_alive (servers s)).
 
 (* record updates *)
 Definition with_fsm (s : state) f := {| fsm_st := f; cur := cur s; server := server s; once_done := once_done s;
@@ -570,6 +580,14 @@ Section Model.
         else None
       | _, _ => None
       end
+    | LServeSkip sid =>                    (* the goroutine finds r.server == nil ("Server was nil, not starting") *)
+      match srv_at s sid, server s with
+      | Some sv, None =>
+        if s_shut sv && sv_pc_eqb (s_pc sv) SvStart
+        then Some (with_srvnet s (upd_srv (servers s) sid (set_pc SvExited)) (net s))
+        else None
+      | _, _ => None
+      end
     | LLasClosed sid =>                    (* ListenAndServe returns ErrServerClosed *)
       match srv_at s sid with
       | Some sv =>
@@ -601,6 +619,7 @@ Section Model.
         end
       | _ => None
       end
+    | LObsCensus n => if Nat.eqb (census s) n then Some s else None
     | LQuiesce => None
     end.
 
@@ -609,7 +628,7 @@ Section Model.
     [LRunStart; LRunLock; LRunFinishBoot; LRunWake; LRunServeErr; LRunLockStop; LUnchanged; LFinish;
      LStopSkip; LBootReject; LProbeOk; LProbeErr; LProbeCancelled; LProbeTimeout]
     ++ map LReloadBegin (rl_wait s)
-    ++ flat_map (fun sid => [LBindOk sid; LPushErr sid]) (seq 0 (length (servers s))).
+    ++ flat_map (fun sid => [LBindOk sid; LPushErr sid; LServeSkip sid]) (seq 0 (length (servers s))).
 
   Definition quiescent (s : state) : bool :=
     forallb (fun l => match step_core s l with Some _ => false | None => true end) (taus s).
@@ -642,6 +661,7 @@ Section Model.
     | EState f => [LObsState f]
     | EDial a b => [LObsDial a b]
     | EServe a t => [LObsServe a t]
+    | ECensus n => [LObsCensus n]
     | EQuiesce => [LQuiesce]
     end.
 End Model.
@@ -675,6 +695,7 @@ Definition event_eqb (a b : event) : bool :=
   | EState x, EState y => fsm_eqb x y
   | EDial x b, EDial y c => str_eqb x y && Bool.eqb b c
   | EServe x t, EServe y u => str_eqb x y && tbl_eqb t u
+  | ECensus x, ECensus y => Nat.eqb x y
   | _, _ => false
   end.
 
